@@ -29,7 +29,7 @@ for p in props:
             "engine": "gosym",
             "level_claimed": {"category": "model_checking",
                               "text": c.get('level_text', "bounded symbolic model checking of the real code: every feasible path of the harness over the SSA of the current tree is explored, every assertion and panic site is a solver obligation (unsat = holds for all inputs within the stated bounds); sat models are replayed against the native build before they are reported"),
-                              "design_ref": c.get('design_ref', "DESIGN.md section 4, " + pid)},
+                              "design_ref": c.get('design_ref', "DESIGN.md Part I (I.4 status, I.7 seeded changes) and Part II section 4, " + pid)},
             "level_note": "; ".join(c.get('assumptions', [])) + " | outside the claim: " + "; ".join(c.get('outside', [])) + " | bounds quick=" + json.dumps(c.get('quick', {})) + " thorough=" + json.dumps(c.get('thorough', {})),
             "technique": c.get('technique', "symbolic execution of go/ssa to SMT (bit-vectors, arrays, UF), z3; native replay of models"),
         })
